@@ -45,8 +45,11 @@ def install_demo():
     return None, "no demonstration found"
 
 
-def run_demo(args):
-    for feats in ([], ["--all-features"]):
+def run_demo(args, prefer=None):
+    order = [[], ["--features", "std"], ["--all-features"]]
+    if prefer is not None:
+        order = [prefer]
+    for feats in order:
         rc, o = sh(["cargo", "test", "--offline"] + feats + args + extra, timeout=3000)
         m = re.findall(r"test result: (\w+)\. (\d+) passed; (\d+) failed", o)
         if m:
@@ -54,6 +57,8 @@ def run_demo(args):
             failed = sum(int(x[2]) for x in m)
             if passed + failed > 0:
                 return {"rc": rc, "passed": passed, "failed": failed, "features": feats}
+        if prefer is not None and "could not compile" in o:
+            return {"rc": rc, "passed": 0, "failed": 0, "features": feats, "compile_error": True, "tail": o[-400:]}
     return {"rc": rc, "passed": 0, "failed": 0, "tail": o[-600:]}
 
 
@@ -75,9 +80,22 @@ rc, o = sh(["cargo", "test", "--workspace", "--no-fail-fast", "--offline"], time
 m = re.findall(r"test result: (\w+)\. (\d+) passed; (\d+) failed", o)
 res["mutant_suite"] = {"rc": rc, "passed": sum(int(x[1]) for x in m), "failed": sum(int(x[2]) for x in m)}
 args, err = install_demo()
-res["mutant_demo"] = run_demo(args) if not err else {"error": err}
+res["mutant_demo"] = run_demo(args, prefer=res["clean_demo"].get("features")) if not err else {"error": err}
+if res["mutant_demo"].get("failed", 0) == 0 and not res["mutant_demo"].get("compile_error") and res["clean_demo"].get("features") == []:
+    # the demonstration may need a non-default feature set to see the change
+    for feats in (["--features", "std"], ["--all-features"]):
+        clean()
+        a2, _ = install_demo()
+        c2 = run_demo(a2, prefer=feats)
+        if c2["passed"] > 0 and c2["failed"] == 0:
+            sh(["git", "apply", os.path.join(d, "patch.diff")])
+            m2 = run_demo(a2, prefer=feats)
+            if m2.get("failed", 0) > 0 or m2.get("compile_error"):
+                res["clean_demo"], res["mutant_demo"] = c2, m2
+                break
+        clean()
 clean()
 ok = (res["clean_demo"]["failed"] == 0 and res["clean_demo"]["passed"] > 0 and res["mutant_suite"]["rc"] == 0
-      and res["mutant_suite"]["passed"] == 36 and res["mutant_demo"].get("failed", 0) > 0)
+      and res["mutant_suite"]["passed"] == 36 and (res["mutant_demo"].get("failed", 0) > 0 or res["mutant_demo"].get("compile_error")))
 res["confirmed"] = ok
 print(json.dumps(res))
